@@ -116,13 +116,31 @@ ScanCs(so, g, dump, tabs, s, img, i) ==
                           item |-> [start |-> c.cs.start, frames |-> c.cs.frames]]
        ELSE ScanCs(so, g, dump, t.tabs, t.s, c.img, t.pos)
 
+\* ---- Advance for the log listing (os_log_events): the event records are passed over, then every log record of the dump
+\* is decoded in order; a record that names a process and a thread extends the tables AS IT IS PASSED (kept or not)
+LogExt(tabs, l) == IF l.proc # "" /\ l.tid # NoneTid
+                   THEN [tpid |-> Put(tabs.tpid, l.tid, l.pid), pname |-> Put(tabs.pname, l.pid, l.proc)] ELSE tabs
+RECURSIVE ScanLogs(_, _, _, _)
+ScanLogs(g, dump, tabs, j) ==
+  IF j > Len(dump.logs) THEN [found |-> FALSE, pos |-> j, tabs |-> tabs]
+  ELSE LET l == dump.logs[j]
+           t2 == LogExt(tabs, l)
+       IN IF LogSat(AsObj(g.cfg), l)
+          THEN [found |-> TRUE, pos |-> j + 1, tabs |-> t2, item |-> [i |-> l.i, proc |-> ProcCol(t2.tpid, t2.pname, l.tid)]]
+          ELSE ScanLogs(g, dump, t2, j + 1)
+
 \* one next() of listing g: [so, g] after it and the item (or none)
 Adv(so, g, dump, tables) ==
   LET obj  == so.o
       tab0 == IF g.started THEN [tpid |-> obj.tpid, pname |-> obj.pname]
               ELSE IF SVariant = "clearAtOpen" THEN FillMap(dump.tmap, 1, obj.tpid, obj.pname)     \* only filled, on top of what is there
               ELSE MapTables(dump.tmap)                                                          \* first next(): header, thread map (clear, fill)
-  IN IF ~IsTr(g.kind) THEN
+  IN IF g.kind = "logs" THEN
+       LET r == ScanLogs(g, dump, tab0, g.pos) IN
+       [so |-> [so EXCEPT !.o.tpid = r.tabs.tpid, !.o.pname = r.tabs.pname],
+        g |-> [g EXCEPT !.started = TRUE, !.pos = r.pos, !.done = ~r.found, !.out = IF r.found THEN Append(@, r.item) ELSE @],
+        found |-> r.found, item |-> IF r.found THEN r.item ELSE [k |-> 0]]
+     ELSE IF ~IsTr(g.kind) THEN
        LET r == ScanKev(so, g, dump, tables, tab0, g.pos) IN
        [so |-> [so EXCEPT !.o.tpid = tab0.tpid, !.o.pname = tab0.pname],
         g |-> [g EXCEPT !.started = TRUE, !.pos = r.pos, !.done = ~r.found, !.out = IF r.found THEN Append(@, r.item) ELSE @],
@@ -152,7 +170,15 @@ SetCfgObj(so, cfg, inplace) ==
 \* ---- the reference: Pipeline's atomic request on a fresh object with the settings bound at Open --
 AtomicOut(g, dump, tables) ==
   LET obj == AsObj(g.cfg) IN
-  IF ~IsTr(g.kind) THEN
+  IF g.kind = "logs" THEN
+    LET RECURSIVE All(_, _)
+        All(tabs, j) == IF j > Len(dump.logs) THEN <<>>
+                        ELSE LET l == dump.logs[j]
+                                 t2 == LogExt(tabs, l)
+                             IN (IF LogSat(obj, l) THEN <<[i |-> l.i, proc |-> ProcCol(t2.tpid, t2.pname, l.tid)]>> ELSE <<>>)
+                                \o All(t2, j + 1)
+    IN All(MapTables(dump.tmap), 1)
+  ELSE IF ~IsTr(g.kind) THEN
     LET evs == ReqKevents(obj, dump).out
         tabs == MapTables(dump.tmap)
     IN [i \in 1..Len(evs) |-> [k |-> evs[i].k, name |-> NameOf(tables, g.codes, evs[i]),
@@ -165,7 +191,8 @@ AtomicOut(g, dump, tables) ==
     [i \in 1..Len(cs) |-> [start |-> cs[i].cs.start, frames |-> cs[i].cs.frames]]
 
 \* what of an item does not depend on the shared tables / image table
-Sel(kind, it) == IF kind \in {"kev", "fkev"} THEN <<it.k, it.name>> ELSE IF kind = "tr" THEN <<it.k, it.first>> ELSE <<it.start>>
+Sel(kind, it) == IF kind \in {"kev", "fkev"} THEN <<it.k, it.name>> ELSE IF kind = "tr" THEN <<it.k, it.first>>
+                 ELSE IF kind = "logs" THEN <<it.i>> ELSE <<it.start>>
 SelSeq(kind, xs) == [i \in 1..Len(xs) |-> Sel(kind, xs[i])]
 
 IsPrefixOf(a, b) == Len(a) <= Len(b) /\ \A i \in 1..Len(a) : a[i] = b[i]
